@@ -142,7 +142,8 @@ func c20Case(c *Ctx, i int64) {
 	default:
 		data = mixData(g, n)
 	}
-	mode := []os.FileMode{0o600, 0o644, 0o755}[(k/11)%3]
+	// 0664 / 0666 / 0777 have bits that the default umask filters at file creation
+	mode := []os.FileMode{0o600, 0o644, 0o755, 0o664, 0o666, 0o777, 0o640}[(k/11)%7]
 	umask := []string{"022", "0"}[(k/13)%2]
 	useStdio := (k/17)%4 == 3
 	dir, err := os.MkdirTemp(".", fmt.Sprintf("c20-%d-", i))
@@ -200,7 +201,8 @@ func c20Case(c *Ctx, i int64) {
 		}
 		z = zb
 		if st, err := os.Stat(fn + ".lz4"); err == nil && st.Mode().Perm() != mode.Perm() {
-			c.Violation("mode-bits/compressed-file", fmt.Sprintf("f.dat has mode %o, f.dat.lz4 has %o (umask %s)", mode.Perm(), st.Mode().Perm(), umask), det())
+			// observation only: the property speaks of the restored file (checked below)
+			c.Count("compressed_file_mode_differs_from_original", 1)
 		}
 	}
 	// 1. well-formed frame in the sense of C09, reflecting the flags as the usage text states them
@@ -250,7 +252,15 @@ func c20Case(c *Ctx, i int64) {
 		os.Remove(fn)
 		if k%5 == 3 {
 			// the original (or an older, longer version of it) is still there when uncompressing
-			os.WriteFile(fn, bytes.Repeat([]byte("older version "), len(data)/8+200), mode)
+			pm := mode
+			if k%10 == 8 {
+				pm = 0o600 // ... with other permission bits than the original had
+				if mode == 0o600 {
+					pm = 0o644
+				}
+			}
+			os.WriteFile(fn, bytes.Repeat([]byte("older version "), len(data)/8+200), pm)
+			os.Chmod(fn, pm)
 			c.Count("preexisting_output_cases", 1)
 		}
 		out, se, code, err := c20Run(dir, umask, nil, "uncompress", "f.dat.lz4")
